@@ -692,7 +692,62 @@ class Emitter:
             lc = cx["loop_contracts"].get(ordinal, "")
             if lc:
                 cx["loop_contracts_used"].add(ordinal)
+                if "@LOCALS@" in lc:
+                    # frame of the loop: every local declared so far (an over-approximation, so the invariant must carry
+                    # whatever is needed); keeps the contract independent of incidental temporaries
+                    self.rules["loop-frame-locals"] += 1
+                    lc = lc.replace("@LOCALS@", ", ".join(cx.get("local_decls", [])) or "jpv_nothing")
                 lc = "\n".join(pad + "  " + l for l in lc.strip().splitlines()) + "\n"
+            g_begin, g_end = cx["loop_contracts"].get(("begin", ordinal)), cx["loop_contracts"].get(("end", ordinal))
+            if g_begin or g_end:
+                # ghost statements at the start / end of the loop body (spec side only)
+                for key in (("begin", ordinal), ("end", ordinal)):
+                    if key in cx["loop_contracts"]:
+                        cx["loop_contracts_used"].add(key)
+                inner = n["inner"][-1] if k != "DoStmt" else n["inner"][0]
+                if g_end and self._has_continue(inner):
+                    raise ExtractionError("ghost code at the end of a loop body that contains `continue`")
+                real_block = self._block
+                def wrap(b, real_block=real_block, g_begin=g_begin, g_end=g_end):
+                    self._block = real_block          # one-shot: only the loop's own body
+                    b = real_block(b)
+                    items = list(b.get("inner", []))
+                    if g_begin:
+                        items.insert(0, {"kind": "JpvGhost", "text": g_begin})
+                    if g_end:
+                        items.append({"kind": "JpvGhost", "text": g_end})
+                    return {"kind": "CompoundStmt", "inner": items}
+                self._block = wrap
+                try:
+                    return self._loop_text(n, k, cx, ind, pad, lc)
+                finally:
+                    self._block = real_block
+            return self._loop_text(n, k, cx, ind, pad, lc)
+        if k == "JpvGhost":
+            return "".join(pad + "/* ghost */ " + l + "\n" for l in n["text"].strip().splitlines())
+        if False:
+            pass
+        if k == "SwitchStmt":
+            cond, body = n["inner"][-2], n["inner"][-1]
+            return pad + "switch (%s)\n" % self.expr(cond, cx) + self.stmt(body, cx, ind)
+        if k == "CaseStmt":
+            val = n["inner"][0]
+            sub = n["inner"][-1]
+            return pad + "case %s:\n" % self.expr(val, cx) + self.stmt(sub, cx, ind + 1)
+        if k == "DefaultStmt":
+            return pad + "default:\n" + self.stmt(n["inner"][-1], cx, ind + 1)
+        # expression statement
+        return pad + self.expr(n, cx) + ";\n"
+
+    def _has_continue(self, n):
+        if n.get("kind") == "ContinueStmt":
+            return True
+        if n.get("kind") in ("ForStmt", "WhileStmt", "DoStmt"):
+            return False
+        return any(self._has_continue(c) for c in n.get("inner", []))
+
+    def _loop_text(self, n, k, cx, ind, pad, lc):
+        if True:
             if k == "ForStmt":
                 init, condvar, cond, inc, body = n["inner"]
                 i_s = self.stmt(init, cx, 0).strip() if init.get("kind") else ";"
@@ -706,17 +761,6 @@ class Emitter:
                 return pad + "while (%s)\n" % self.expr(cond, cx) + lc + self.stmt(self._block(body), cx, ind)
             body, cond = n["inner"]
             return pad + "do\n" + lc + self.stmt(self._block(body), cx, ind) + pad + "while (%s);\n" % self.expr(cond, cx)
-        if k == "SwitchStmt":
-            cond, body = n["inner"][-2], n["inner"][-1]
-            return pad + "switch (%s)\n" % self.expr(cond, cx) + self.stmt(body, cx, ind)
-        if k == "CaseStmt":
-            val = n["inner"][0]
-            sub = n["inner"][-1]
-            return pad + "case %s:\n" % self.expr(val, cx) + self.stmt(sub, cx, ind + 1)
-        if k == "DefaultStmt":
-            return pad + "default:\n" + self.stmt(n["inner"][-1], cx, ind + 1)
-        # expression statement
-        return pad + self.expr(n, cx) + ";\n"
 
     def _block(self, n):
         if n["kind"] == "CompoundStmt":
@@ -741,6 +785,10 @@ class Emitter:
             self.rules["type-from-init"] += 1
             ts = self.tstr(init[0]) + (" &" if norm_type(t["qualType"]).rstrip().endswith("&") else "")
         name = n["name"]
+        if not self.is_ref(ts) and "*" not in ts:
+            tb0, dims0 = self.strip_array(ts)
+            b0 = split_type(tb0)[0]
+            cx.setdefault("local_decls", []).append(name if (not dims0 and (b0 in BUILTIN)) else "__CPROVER_object_whole(&%s)" % name if not dims0 else "__CPROVER_object_whole(%s)" % name)
         if self.is_ref(ts):
             self.rules["local-ref-to-pointer"] += 1
             decl = self.cdecl(ts, name)
@@ -819,7 +867,23 @@ class Emitter:
         return "%s\n%s;" % (self.signature(f), contract.strip()) if contract.strip() else self.signature(f) + ";"
 
 
-def build_unit(tu, workdir, bodies, contracts=None, loop_contracts=None, extra_bodies=(), spec_prelude="", defines=""):
+def inject_ghost(text, rules, qname):
+    """ghost statements (spec-side only: assignments to jpv_ ghost variables, __CPROVER_assert / assume of spec terms)
+    spliced next to an anchor line of the emitted body.  rules: [(regex, 'before'|'after', code)].
+    Every anchor must match exactly one line (must-fire rule), otherwise the extraction is unusable."""
+    lines = text.splitlines()
+    for (rx, where, code) in rules:
+        hits = [i for i, l in enumerate(lines) if re.search(rx, l)]
+        if len(hits) != 1:
+            raise ExtractionError("%s: ghost anchor %r matches %d lines (must be exactly 1)" % (qname, rx, len(hits)))
+        i = hits[0]
+        pad = re.match(r"\s*", lines[i]).group(0)
+        block = [pad + "/* ghost */ " + c for c in code.strip().splitlines()]
+        lines[i + 1 if where == "after" else i:i + 1 if where == "after" else i] = block
+    return "\n".join(lines) + "\n"
+
+
+def build_unit(tu, workdir, bodies, contracts=None, loop_contracts=None, extra_bodies=(), spec_prelude="", defines="", ghost=None):
     """Emit one C translation unit.
 
     bodies:      qualified names of functions emitted WITH their real bodies
@@ -832,9 +896,13 @@ def build_unit(tu, workdir, bodies, contracts=None, loop_contracts=None, extra_b
     body_funcs = [tu.func(q) for q in bodies]
     texts = []
     for f in body_funcs:
-        texts.append(em.function_c(f, contracts.get(f.qname, ""), loop_contracts.get(f.qname)))
+        t = em.function_c(f, contracts.get(f.qname, ""), loop_contracts.get(f.qname))
+        if ghost and f.qname in ghost:
+            t = inject_ghost(t, ghost[f.qname], f.qname)
+        texts.append(t)
     protos = []
     done = {f.cname for f in body_funcs}
+    em.called = set(em.need_funcs)          # callees the emitted bodies really call
     for q in contracts:
         f = tu.func(q)
         em.need_funcs.setdefault(f.cname, f)
